@@ -531,6 +531,152 @@ def record_walk(tid, consts, rng, nsteps=25):
     return run, lines
 
 
+MIX_T_PROJ = ("[sent |-> Len(sent), inflight |-> Len(wire), delivered |-> delivered, queued |-> queued, reads |-> reads, "
+              "failedReads |-> failedReads, rstate |-> rstate, consumerDone |-> consumerDone, cattached |-> cattached]")
+
+
+class MixedWalk:
+    """Code -> spec for the Mixed configuration of TransitRecords.tla: a sequential application on a real negotiated Connection pair
+    reads single records and attaches consumers expecting the bytes of the next 0..2 records, while records are sent, arrive one
+    frame at a time, and the connection may be cut.  Every step is recorded with the projection of the real receiving Connection."""
+    async_close = loop_reader = slow = pausing = False
+    sizes = []
+
+    def __init__(self, tid, direction, rng, max_records=4):
+        self.tid, self.direction, self.rng, self.max_records = tid, direction, rng, max_records
+        cs, cr, self.link = make_pair()
+        self.src, self.dst = (cs, cr) if direction == "s2r" else (cr, cs)
+        self.logged = Logged()
+        log.addObserver(self.logged)
+        self.payloads, self.wire, self.got, self.reads, self.consumers = [], [], [], [], []
+        self.schedule, self.lines, self.internal = [], [], []
+        self.cut = False
+
+    def ident(self, b):
+        b = bytes(b)
+        return self.payloads.index(b) + 1 if b in self.payloads else 900000 + len(b) % 1000
+
+    def busy(self):
+        return any(r["r"] is None for r in self.reads) or self.dst._consumer is not None
+
+    def enabled(self):
+        acts = []
+        if len(self.payloads) < self.max_records and not self.cut:
+            acts += [("Send", len(self.payloads) + 1, "-")] * 2
+        if self.wire and not self.cut:
+            acts += [("Recv", 0, "-")] * 4
+        if not self.cut:
+            acts.append(("Cut", 0, "-"))
+        obtained = len(self.got) + len(self.dst._inbound_records)
+        if not self.busy():
+            if (not self.cut or self.dst._inbound_records) and len(self.reads) + len(self.got) < self.max_records:
+                acts += [("Read", 0, "-")] * 2
+            if not self.cut:
+                for k in (0, 1, 2):
+                    if obtained + k <= self.max_records:
+                        acts.append(("Attach", k, "-"))
+        return acts
+
+    def do(self, la):
+        self.schedule.append(list(la))
+        a = la[0]
+        try:
+            if a == "Send":
+                n = len(self.payloads)
+                p = b"rec-%d-" % (n + 1) + bytes([65 + n]) * (3 * n + 1)
+                self.payloads.append(p)
+                self.src.send_record(p)
+                t = self.src.transport
+                buf = b"".join(t.out)
+                t.out[:] = []
+                self.wire += split_frames(buf)
+            elif a == "Recv":
+                reactor.call_protocol(self.dst.dataReceived, self.wire.pop(0))
+            elif a == "Read":
+                slot = {"r": None}
+                self.reads.append(slot)
+                d = self.dst.receive_record()
+                d.addCallbacks(lambda r, slot=slot: (slot.__setitem__("r", "ok"), self.got.append(self.ident(r))),
+                               lambda f, slot=slot: slot.__setitem__("r", "err"))
+            elif a == "Attach":
+                k = la[1]
+                base = len(self.got)
+                # the bytes of the next k records (sizes are a function of the position, known before the record is sent)
+                expected = sum(len(b"rec-%d-" % (i + 1)) + 3 * i + 1 for i in range(base, base + k))
+                c = {"done": "-", "n": 0, "expected": expected, "bytes": 0}
+                self.consumers.append(c)
+                walk = self
+
+                class Sink:
+                    def write(self_, b):
+                        if len(b):
+                            c["bytes"] += len(b)
+                            walk.got.append(walk.ident(b))
+                d = self.dst.writeToFile(Sink(), expected)
+                d.addCallbacks(lambda n, c=c: (c.__setitem__("done", "ok"), c.__setitem__("n", n)),
+                               lambda f, c=c: c.__setitem__("done", "err"))
+            elif a == "Cut":
+                self.cut = True
+                self.wire = []
+                kill(self.link)
+            pump_no_delivery()
+        except sim._ProtocolRaised as e:
+            self.internal.append("dataReceived raised: %s" % (str(e)[:80],))
+            kill(self.link)
+        except Exception as e:
+            self.internal.append("%s in %s: %s" % (type(e).__name__, a, str(e)[:80]))
+        self.lines.append({"a": list(la), "proj": self.projection()})
+
+    def projection(self):
+        t = self.dst.transport
+        rstate = "lost" if (self.cut or not t.connected) else ("hung up" if (self.dst.state == "hung up" or t.disconnecting) else "records")
+        return {"sent": len(self.payloads), "inflight": len(self.wire), "delivered": list(self.got),
+                "queued": [self.ident(r) for r in self.dst._inbound_records],
+                "reads": sum(1 for r in self.reads if r["r"] is None), "failedReads": sum(1 for r in self.reads if r["r"] == "err"),
+                "rstate": rstate, "consumerDone": self.consumers[-1]["done"] if self.consumers else "-",
+                "cattached": self.dst._consumer is not None}
+
+    def finish(self):
+        for e in self.logged.items:
+            n = type(e).__name__
+            if n not in ("ConnectionDone", "ConnectionLost"):
+                self.internal.append("%s: %s" % (n, str(e)[:80]))
+        log.removeObserver(self.logged)
+        pr = self.projection()
+        consumers = self.consumers
+        return {"lateReadFailed": 0, "tid": self.tid, "sent": list(range(1, len(self.payloads) + 1)), "got": list(self.got) + pr["queued"],
+                "atTamper": -1, "desync": False, "state": pr["rstate"], "pendingReads": pr["reads"],
+                # (one verdict for all consumers of the walk: a consumer left waiting on a lost connection shows as "-")
+                "consumerDone": "-" if (pr["rstate"] == "lost" and any(c["done"] == "-" for c in consumers)) else
+                                ("ok" if any(c["done"] == "ok" for c in consumers) else
+                                 ("err" if any(c["done"] == "err" for c in consumers) else "-")),
+                "consumerBytes": sum(c["n"] for c in consumers if c["done"] == "ok"), "sentBytes": sum(len(p) for p in self.payloads),
+                "expectedBytes": sum(c["expected"] for c in consumers if c["done"] == "ok"),
+                "gotBytes": sum(c["bytes"] for c in consumers if c["done"] == "ok"),
+                "clean": not self.cut, "inflight": len(self.wire), "internal": self.internal, "direction": self.direction,
+                "chunking": "whole", "consumer": bool(consumers), "loopReader": False, "rearmed": 0, "slow": False,
+                "envClosed": bool(self.cut), "pausingConsumer": False, "origin": "mixed-walk"}
+
+
+def pump_no_delivery():
+    """zero-delay calls and close bookkeeping, but no delivery of bytes (the walk hands frames over itself)"""
+    for _ in range(50):
+        due = reactor.due()
+        if not due:
+            return
+        reactor.run_call(due[0])
+
+
+def mixed_walk(tid, rng, nsteps=22):
+    w = MixedWalk(tid, "s2r" if tid % 2 else "r2s", rng)
+    for _ in range(nsteps):
+        acts = w.enabled()
+        if not acts:
+            break
+        w.do(rng.choice(acts))
+    return w
+
+
 SIZE_PROFILES = [[5, 0, 17], [0, 1, 2], [16384, 3, 70000], [1, 65537, 0], [40, 40, 41]]
 
 
@@ -543,16 +689,18 @@ def run_c06(prop, tier):
     records, runs = [], {}
     with common.Workdir(prop) as wd:
         states = transitions = 0
-        cfgs = {"queue": dict(MaxRecords=3, MaxManip=1, MaxReads=3, ConsumerMode=False),
-                "consumer": dict(MaxRecords=3, MaxManip=1, MaxReads=0, ConsumerMode=True)}
+        cfgs = {"queue": dict(MaxRecords=3, MaxManip=1, MaxReads=3, ConsumerMode=False, Mixed=False),
+                "consumer": dict(MaxRecords=3, MaxManip=1, MaxReads=0, ConsumerMode=True, Mixed=False)}
+        # (mixed: single records read and consumers - expecting the bytes of the next 0..2 records - taking turns on one connection)
+        cfgs["mixed"] = dict(MaxRecords=4, MaxManip=1, MaxReads=4, ConsumerMode=False, Mixed=True)
         if not quick:
-            cfgs["queue2"] = dict(MaxRecords=4, MaxManip=2, MaxReads=4, ConsumerMode=False)
-            cfgs["consumer2"] = dict(MaxRecords=3, MaxManip=2, MaxReads=0, ConsumerMode=True)
+            cfgs["queue2"] = dict(MaxRecords=4, MaxManip=2, MaxReads=4, ConsumerMode=False, Mixed=False)
+            cfgs["consumer2"] = dict(MaxRecords=3, MaxManip=2, MaxReads=0, ConsumerMode=True, Mixed=False)
         cexs = []
         for name, consts in cfgs.items():
             m = "MC_C06_" + name
             common.write_model(wd, m, "TransitRecords", consts,
-                               invariants=["PrefixInv", "HungUpWhenBad", "NoReadLeftBehind", "ConsumerNotLeftBehind", "ConsumerTruth"],
+                               invariants=["PrefixInv", "HungUpWhenBad", "NoReadLeftBehind", "ConsumerNotLeftBehind", "ConsumerTruth", "AttachedSane"],
                                properties=["NothingAfterTamper", "QueuedObtainable"])
             r = tlc.run(m + ".tla", m + ".cfg", cwd=wd.path, timeout=1800)
             cov["tlc_configs"][name] = {"distinct_states": r.distinct, "states_generated": r.generated, "depth": r.depth,
@@ -569,7 +717,7 @@ def run_c06(prop, tier):
         for cm in (False, True):
             g = "MC_C06_gen_%s" % ("c" if cm else "q")
             nrec = 4
-            common.write_model(wd, g, "TransitRecords", dict(MaxRecords=nrec, MaxManip=2, MaxReads=0 if cm else 5, ConsumerMode=cm))
+            common.write_model(wd, g, "TransitRecords", dict(MaxRecords=nrec, MaxManip=2, MaxReads=0 if cm else 5, ConsumerMode=cm, Mixed=False))
             simdir = wd.file("sim_" + g)
             os.makedirs(simdir)
             n = 60 if quick else 600
@@ -666,8 +814,8 @@ def run_c06(prop, tier):
         # code -> spec: seeded random walks over real connections, validated by TLC against TransitRecords.tla
         wrng = random.Random(seed * 7919 + 6)
         tv = {"walks": 0, "accepted": 0, "rejected": []}
-        for name, consts in (("walk_queue", dict(MaxRecords=4, MaxManip=2, MaxReads=5, ConsumerMode=False)),
-                             ("walk_consumer", dict(MaxRecords=4, MaxManip=2, MaxReads=0, ConsumerMode=True))):
+        for name, consts in (("walk_queue", dict(MaxRecords=4, MaxManip=2, MaxReads=5, ConsumerMode=False, Mixed=False)),
+                             ("walk_consumer", dict(MaxRecords=4, MaxManip=2, MaxReads=0, ConsumerMode=True, Mixed=False))):
             traces = {}
             for _ in range(40 if quick else 400):
                 tid += 1
@@ -686,6 +834,25 @@ def run_c06(prop, tier):
                     tv["rejected"].append({"tid": t, "config": name, "matched_lines": reached, "of": total,
                                            "next_line": traces[t][reached] if reached < total else None,
                                            "schedule": [list(a) for a in runs[t].schedule[:reached + 1]]})
+        # ... and walks of a sequential application that reads and consumes in turn (Mixed configuration)
+        mconsts = dict(MaxRecords=4, MaxManip=0, MaxReads=8, ConsumerMode=False, Mixed=True)
+        mtraces = {}
+        for _ in range(40 if quick else 400):
+            tid += 1
+            mw = mixed_walk(tid, random.Random(wrng.random()))
+            mtraces[tid] = mw.lines
+            rec = mw.finish()
+            records.append(rec)
+            runs[tid] = mw
+        res, r_ = common.trace_validate(wd, "TransitRecords", mconsts, mtraces, MIX_T_PROJ, "MC_C06_trace_mixed")
+        for t, (reached, total) in sorted(res.items()):
+            tv["walks"] += 1
+            if reached == total:
+                tv["accepted"] += 1
+            elif len(tv["rejected"]) < 6:
+                tv["rejected"].append({"tid": t, "config": "mixed", "matched_lines": reached, "of": total,
+                                       "next_line": mtraces[t][reached] if reached < total else None,
+                                       "schedule": [list(a) for a in runs[t].schedule[:reached + 1]]})
         cov["trace_validation"] = dict(tv, rule="each walk = up to 25 steps (send, receive, read, adversary operations on whole frames, cut) on "
                                        "a real negotiated Connection pair; accepted = TransitRecords.tla has a behaviour with the same "
                                        "actions and the same projection (records sent / in flight, next expected nonce, delivered and "
@@ -843,6 +1010,13 @@ def replay(prop, path):
     if prop != "C06":
         from . import transit_select
         return transit_select.replay(prop, path)
+    if d.get("observation", {}).get("origin") == "mixed-walk":
+        mw = MixedWalk(1, d["direction"], random.Random(1))
+        for a in d["schedule"]:
+            mw.do(tuple(a))
+            print(a, "->", mw.projection())
+        print(json.dumps(mw.finish(), indent=1))
+        return 0
     if d["schedule"] and d["schedule"][0][0] == "mixed":
         _r, rec = mixed_case(1, d["schedule"][0][1], d["schedule"][0][2], d["schedule"][0][3])
         print(json.dumps(rec, indent=1))
